@@ -131,6 +131,13 @@ func (rn runner) runOnce(v any) (s string, budget bool) {
 	for {
 		x, ok := iter.Next()
 		if !ok {
+			// a consumer may ask an exhausted iterator again (it is documented to keep
+			// returning false); other runs are alive while this one does
+			for k := 0; k < 2; k++ {
+				if y, again := iter.Next(); again {
+					sb.WriteString("REVIVED " + fmt.Sprint(y) + " ; ")
+				}
+			}
 			sb.WriteString("END")
 			return sb.String(), false
 		}
